@@ -77,12 +77,13 @@ def _find_insert(f):
     return None
 
 
-def r1_r4_copy_map(ctx):
+def r1_r4_copy_map(ctx, ids=None, upto=None):
+    ids = ids or {}
     p = ctx.program
     f = p.func(S, Q)
     g = ctx.cfg(f)
     ins = _find_insert(f)
-    ctx.rule('R-C02.1')
+    ctx.rule(ids.get('R-C02.1', 'R-C02.1'))
     if ins is None:
         raise AnalysisError('R-C02.1: INSERT INTO ... SELECT template not '
                             'found in SQLite to_sql')
@@ -154,7 +155,7 @@ def r1_r4_copy_map(ctx):
             X, len(stores)))
 
     # ---- R-C02.2 ---------------------------------------------------------
-    ctx.rule('R-C02.2')
+    ctx.rule(ids.get('R-C02.2', 'R-C02.2'))
     fill = None
     for n in walk_no_nested(f.node):
         if isinstance(n, ast.For) and any(s in list(ast.walk(n))
@@ -248,7 +249,9 @@ def r1_r4_copy_map(ctx):
                         key='fill-key')
 
     # ---- R-C02.3 ---------------------------------------------------------
-    ctx.rule('R-C02.3')
+    if upto == 'R-C02.2':
+        return
+    ctx.rule(ids.get('R-C02.3', 'R-C02.3'))
     later = [s for s in stores if fill is None or s is not fill[1]]
     ctx.floor('later assignments into the copy map', len(later), 2)
     for s in later:
@@ -288,7 +291,7 @@ def r1_r4_copy_map(ctx):
                         norm_key(s.value))
 
     # ---- R-C02.4 ---------------------------------------------------------
-    ctx.rule('R-C02.4')
+    ctx.rule(ids.get('R-C02.4', 'R-C02.4'))
     ok = False
     if isinstance(params, ast.Call) and call_name(params) == 'tuple' and \
             params.args and isinstance(params.args[0], (ast.GeneratorExp,
